@@ -52,7 +52,14 @@ def run(ctx, rep):
             rep.violated('R1', 'wipe', p.where(), 'the destination directory is not removed before packaging: stale files of an earlier run survive')
         else:
             r0 = rm[0]
-            order = ex.dominates(r0.bb, p.bb) and (not mk or (ex.dominates(r0.bb, mk[0].bb) and ex.dominates(mk[0].bb, p.bb)))
+            # the removal may be conditional on the destination existing (and on nothing else)
+            gds = [cd for cd in conditions(ex, r0.bb, sl) if cd.kind == 'bool' and ex.in_loop(cd.sw_bb)]
+            only_exists = all(cd.outcome is True and cd.value[0] == 'call' and cd.value[1] in ('std::path::Path::exists', 'std::path::Path::try_exists', 'std::path::Path::is_dir')
+                              and strip(cd.value[2][0]) == dest for cd in gds)
+            anchor = gds[0].sw_bb if (gds and only_exists) else r0.bb
+            before = lambda a, b: ex.dominates(a, b) and a != b
+            order = (only_exists or not gds) and before(anchor, p.bb) and (not mk or (before(anchor, mk[0].bb) and before(mk[0].bb, p.bb))) and \
+                (not mk or r0.bb not in ex.reachable(mk[0].bb, stop=[l for L_ in [x for x in __import__('rules.lib.effects', fromlist=['find_loops']).find_loops(ex, sl)] for l in [L_.header]]))
             rep.check(order and bool(mk), 'R1', 'order', r0.where(), 'remove_dir_all(dest) -> create_dir_all(dest) -> package into dest, on every iteration',
                       'wipe / create / package are not in this order on every path')
             fates = result_fates(prog, ex, r0)
